@@ -501,3 +501,134 @@ pub fn rec_fill(ch: &mut Chunker, text: &str, o: &Opts, tag: &str) -> Option<Str
         }
     }
 }
+
+// ---------------------------------------------------------------------------------------------
+// step-level recording of wrap() through the `verif-hooks` feature of the crate under test
+// ---------------------------------------------------------------------------------------------
+
+/// Record one wrap() call as a *group* of step events (w.begin, w.para, w.slow, w.ff, w.ffend, w.arr,
+/// w.emit / w.emit0, w.pend, w.end) for validation against the step machine of spec/MC_Wrap.tla.
+/// The markers w.ffend / w.pend are derived from the order of the hook events; the specification
+/// checks that the corresponding machine action is enabled where a marker stands.
+pub fn rec_wrap_steps(ch: &mut Chunker, text: &str, o: &Opts) {
+    if o.width >= 100_000_000 {
+        return;
+    }
+    let oj = match o.json(ch) {
+        Some(j) => j,
+        None => return,
+    };
+    let paras = paras_json(ch, text, o);
+    textwrap::verif::install();
+    let r = guarded(&|| format!("wrap({:?}, {})", text, o.describe()), || {
+        let options = o.to_options();
+        let lines = textwrap::wrap(text, &options);
+        lines
+            .iter()
+            .map(|l| {
+                let bp = match l {
+                    Cow::Owned(_) => 0,
+                    Cow::Borrowed(b) => offset_in(text, b).map(|x| char_pos(text, x)).unwrap_or(-1),
+                };
+                (l.to_string(), bp)
+            })
+            .collect::<Vec<_>>()
+    });
+    let evs = textwrap::verif::take();
+    let tj = ch.cps(text);
+    let is_ff = o.alg == Alg::FF;
+    ch.push_raw(json!({"ev": "w.begin", "text": tj, "o": oj, "paras": paras}));
+    // walk the hook events, inserting the markers
+    let mut i = 0;
+    let mut in_slow = false;
+    let mut ff_open = false;
+    let mut arr: Vec<i64> = Vec::new();
+    let close_para = |ch: &mut Chunker, in_slow: &mut bool| {
+        if *in_slow {
+            ch.push_raw(json!({"ev": "w.pend"}));
+            *in_slow = false;
+        }
+    };
+    // number of words per emitted line of each slow paragraph, needed up front for optimal-fit
+    let mut arrs: Vec<Vec<i64>> = Vec::new();
+    {
+        let mut cur: Option<Vec<i64>> = None;
+        for e in &evs {
+            match e.site {
+                "wrap.slow" => {
+                    if let Some(c) = cur.take() {
+                        arrs.push(c);
+                    }
+                    cur = Some(Vec::new());
+                }
+                "wrap.emit" => {
+                    if let Some(c) = cur.as_mut() {
+                        c.push(e.vals[4]);
+                    }
+                }
+                "wrap.emit_empty" => {
+                    if let Some(c) = cur.as_mut() {
+                        c.push(0);
+                    }
+                }
+                _ => {}
+            }
+        }
+        if let Some(c) = cur.take() {
+            arrs.push(c);
+        }
+    }
+    let mut slow_no = 0;
+    while i < evs.len() {
+        let e = &evs[i];
+        match e.site {
+            "wrap.para" => {
+                if ff_open {
+                    ch.push_raw(json!({"ev": "w.ffend"}));
+                    ff_open = false;
+                }
+                close_para(ch, &mut in_slow);
+                ch.push_raw(json!({"ev": "w.para", "nlines": e.vals[0], "fast": e.vals[1] == 1}));
+            }
+            "wrap.slow" => {
+                in_slow = true;
+                arr.clear();
+                ch.push_raw(json!({"ev": "w.slow", "lw0": e.vals[0], "lw1": e.vals[1], "nfrags": e.vals[2]}));
+                if !is_ff {
+                    let a = arrs.get(slow_no).cloned().unwrap_or_default();
+                    ch.push_raw(json!({"ev": "w.arr", "lens": a}));
+                } else if e.vals[2] == 0 || true {
+                    ff_open = true;
+                }
+                slow_no += 1;
+            }
+            "first_fit.step" => {
+                ch.push_raw(json!({"ev": "w.ff", "i": e.vals[0], "lw": e.vals[1], "acc": e.vals[2], "brk": e.vals[3] == 1, "nl": e.vals[4]}));
+            }
+            "wrap.emit" | "wrap.emit_empty" => {
+                if ff_open {
+                    ch.push_raw(json!({"ev": "w.ffend"}));
+                    ff_open = false;
+                }
+                if e.site == "wrap.emit" {
+                    ch.push_raw(json!({"ev": "w.emit", "idx": e.vals[0], "len": e.vals[1], "ws": e.vals[2], "pen": e.vals[3], "nw": e.vals[4]}));
+                } else {
+                    ch.push_raw(json!({"ev": "w.emit0"}));
+                }
+            }
+            _ => {}
+        }
+        i += 1;
+    }
+    if ff_open {
+        ch.push_raw(json!({"ev": "w.ffend"}));
+    }
+    close_para(ch, &mut in_slow);
+    match r {
+        Ok(lines) => {
+            let lj: Vec<Value> = lines.iter().map(|(s, bp)| json!({"s": ch.cps(s), "bp": bp})).collect();
+            ch.push_raw(json!({"ev": "w.end", "lines": lj, "status": "ok"}));
+        }
+        Err(_) => ch.push_raw(json!({"ev": "w.end", "lines": [], "status": "panic"})),
+    }
+}
